@@ -26,19 +26,33 @@ def templates_for(tier, seed):
     u4 = list(fam.universe(4, 3, ("module", "function", "class")))
     u4x = list(fam.universe(4, 3, ("def_in_loop", "method"))) + list(fam.decorated(3)) + list(fam.decorated(4)) + list(fam.bare_returns(2)) + list(fam.bare_returns(3)) + list(fam.bare_returns(4))
     comp = list(fam.composed(3))
+    mixed3 = list(fam.mixed_returns(3))
+    mixed4 = list(fam.mixed_returns(4))
+    pad3 = list(fam.padded(1)) + list(fam.padded(2)) + list(fam.padded(3))
+    res3 = list(fam.resumed(2)) + list(fam.resumed(3))
+    res4 = list(fam.resumed(4))
     if tier == "quick":
         rnd = random.Random(seed)
         # fixed core + seed-rotated slices of the 4-node universe and of the composed (deeper) family
         pick4 = rnd.sample(u4, 120) + rnd.sample(u4x, 60)
-        pickc = rnd.sample(comp, 260)
-        chosen = core + pick4 + pickc
-        universe_note = {"core": len(core), "u4": len(u4), "u4x": len(u4x), "picked4": len(pick4), "composed_universe": len(comp), "picked_composed": len(pickc)}
+        pickc = rnd.sample(comp, 200)
+        pickm = mixed3 + rnd.sample(mixed4, 40)
+        # padded skeletons: those with an else clause (where the truthiness / emptiness of a lowered
+        # branch matters) are preferred, and they run under if_style=short_circuit
+        pad_else = [p for p in pad3 if "e(" in p[0]]
+        pickp = rnd.sample(pad_else, 90) + rnd.sample(pad3, 30)
+        pickr = res3 + rnd.sample(res4, 40)
+        chosen = core + pick4 + pickc + pickm + pickp + pickr
+        universe_note = {"core": len(core), "u4": len(u4), "u4x": len(u4x), "picked4": len(pick4), "composed_universe": len(comp), "picked_composed": len(pickc), "mixed_returns_universe": len(mixed3) + len(mixed4), "picked_mixed_returns": len(pickm), "padded_universe": len(pad3), "picked_padded": len(pickp), "resumed_iterator_universe": len(res3) + len(res4), "picked_resumed": len(pickr)}
     else:
         u5 = list(fam.universe(5, 3, ("module", "function")))
+        pad4 = list(fam.padded(4))
         rnd = random.Random(seed)
-        pick5 = rnd.sample(u5, 700)
-        chosen = core + u4 + u4x + pick5 + comp
-        universe_note = {"core": len(core), "u4": len(u4), "u4x": len(u4x), "u5_universe": len(u5), "picked5": len(pick5), "composed_universe": len(comp)}
+        pick5 = rnd.sample(u5, 500)
+        pickc = rnd.sample(comp, 5000)
+        pickp = pad3 + rnd.sample(pad4, 600)
+        chosen = core + u4 + u4x + pick5 + pickc + mixed3 + mixed4 + pickp + res3 + res4
+        universe_note = {"core": len(core), "u4": len(u4), "u4x": len(u4x), "u5_universe": len(u5), "picked5": len(pick5), "composed_universe": len(comp), "picked_composed": len(pickc), "mixed_returns": len(mixed3) + len(mixed4), "padded_universe": len(pad3) + len(pad4), "picked_padded": len(pickp), "resumed_iterator": len(res3) + len(res4)}
     for d in chosen:
         tpls.append(mk(*d))
     return tpls, universe_note
@@ -54,15 +68,25 @@ def run(tier, args=None):
             # one semantic configuration per program, rotating so that all 4 are exercised
             for k, t in enumerate(tpls):
                 t.sem_configs = [common.SEM_CONFIGS[(k + seed) % 4]]
+                if "+pad_" in t.desc:
+                    t.sem_configs = [common.SEM_CONFIGS[1 + 2 * ((k + seed) % 2)]]
             d = sce.Driver(rep, known, wd, tier, per_cond_timeout=20)
             d.run(tpls)
             agg = merge(None, d)
         else:
-            # all 4 semantic configurations for the plain universe up to 4 nodes; one rotating
-            # configuration for the decorated / 5-node / composed families
+            # all 4 semantic configurations for the plain universe up to 3 nodes, 2 rotating ones for
+            # the 4-node universe; one rotating configuration for the decorated / 5-node / composed /
+            # padded / mixed-return families
             for k, t in enumerate(tpls):
-                plain = t.desc.split(":")[1] in ("module", "function", "class", "extra") and ":ctx:" not in t.desc and len(t.desc.split(":")[2].replace("(", "").replace(")", "").replace("e", "")) <= 4
-                if not plain:
+                plain = t.desc.split(":")[1] in ("module", "function", "class", "extra") and ":ctx:" not in t.desc
+                nodes = len(t.desc.split(":")[2].replace("(", "").replace(")", "").replace("e", "")) if plain else 9
+                if plain and nodes <= 3:
+                    continue
+                if plain and nodes == 4:
+                    t.sem_configs = [common.SEM_CONFIGS[(k + seed) % 4], common.SEM_CONFIGS[(k + seed + 2) % 4]]
+                elif "+pad_" in t.desc:
+                    t.sem_configs = [common.SEM_CONFIGS[1], common.SEM_CONFIGS[3]]
+                else:
                     t.sem_configs = [common.SEM_CONFIGS[(k + seed) % 4]]
             d = sce.Driver(rep, known, wd, tier, per_cond_timeout=60)
             d.run(tpls)
@@ -97,7 +121,7 @@ def finish(rep, agg, note, tier):
         "oneliner.pending_nodes._PendingCompoundStmt._iter_branch / PendingIf / PendingWhile / PendingFor / PendingBreak / PendingContinue / PendingReturn / PendingFunctionDef / PendingClassDef (lowering under test)",
         "oneliner.presets.iter_wrapper (executed symbolically as part of the converted text)",
     ]
-    cov["bounds"] = "skeleton size <= 4 nodes exhaustive (thorough), 5 nodes sampled; composed family: every interrupt-containing block of <= 3 nodes spliced into 21 loop/else/if contexts of up to 3 levels (6-9 nodes, depth <= 5) at module/function/class/method level; nesting depth <= 3 in the plain universe; schedule len(B) <= %d then False; every iterable yields 0..2 items; event budget 80" % (5 if tier == "quick" else 6)
+    cov["bounds"] = "skeleton size <= 4 nodes exhaustive (thorough), 5 nodes sampled; composed family: interrupt-containing blocks of <= 3 nodes spliced into 27 loop/else/if contexts of up to 3 levels (6-10 nodes, depth <= 5) at module/function/class/method level (thorough: 5 000 of them per run, seed-rotated); mixed bare/valued returns (every proper subset of the returns of every function skeleton of 3-4 nodes); padded skeletons (a statement that lowers to nothing or to a constant before every statement); resumed iterators (loops over named iterator objects -- with generator-like close/send/throw that log -- which are read to the end after the skeleton); nesting depth <= 3 in the plain universe; schedule len(B) <= %d then False; every iterable yields 0..2 items; event budget 80" % (5 if tier == "quick" else 6)
     cov["explanation"] = "one PEP-316 condition per (skeleton, semantic configuration): CrossHair/z3 explore every path of exec(source) and eval(converted) over the symbolic schedule and iterable lengths and compare the traces of marker/condition/iterator events and the return value"
     rep.assumptions += [
         "stubs: mark/cond/log/It are harness helpers injected as globals on both sides",
